@@ -136,7 +136,7 @@ def props_modules(prop):
     d = os.path.join(LEAN, "Sck", "Props")
     if not os.path.isdir(d):
         return []
-    return sorted(f[:-5] for f in os.listdir(d) if f.endswith(".lean") and re.fullmatch(re.escape(prop) + r"[A-Za-z]*", f[:-5]))
+    return sorted(f[:-5] for f in os.listdir(d) if f.endswith(".lean") and re.fullmatch(re.escape(prop) + r"([A-Za-z][A-Za-z0-9]*)?", f[:-5]))
 
 
 def obligations_of(prop):
@@ -187,7 +187,7 @@ def proof_audit(prop, thorough=False):
         return res
     os.makedirs(OUT, exist_ok=True)
     cache = os.path.join(OUT, f"audit-{prop}.json")
-    key = "v2:" + lean_sources_hash()
+    key = "v3:" + lean_sources_hash() + ":" + hashlib.sha256("\n".join(names).encode()).hexdigest()[:16]
     cached = None
     if os.path.exists(cache) and not thorough:
         try:
